@@ -351,6 +351,15 @@ def _f19_system():
     return s, d
 
 
+def _f16_system():
+    from sysloss.system import System
+    from sysloss.components import Source, Rectifier, ILoad
+    s = System("F16", Source("ac", vo=12.0))
+    s.add_comp("ac", comp=Rectifier("bridge", rs=[0.1, 0.2]))
+    s.add_comp("bridge", comp=ILoad("load", ii=0.1))
+    return s
+
+
 def run_c03(ctx):
     res = Result()
     rng = ctx.rng
@@ -418,6 +427,8 @@ def run_c03(ctx):
         c["has_design"] = True
         c["design"] = [{"name": n, "vin": _cell(d["vin"]), "vout": _cell(d["vout"]), "iin": _cell(d["iin"]),
                         "iout": _cell(d["iout"])} for n, d in d19.items()]
+        # committed reproducer of finding F16 (always executed)
+        record(_f16_system(), {}, "std")
         # (d): overloaded systems must raise or return a physical converged state
         for _ in range(n_over):
             st = next(it, None)
